@@ -214,9 +214,12 @@ Inductive case :=
 (* stream (e): a pattern that the compiler splits into a chain of pieces (jumps
    over the chaining threshold), with the REAL pieces and atoms, the kernel that
    ran (0 the vectorised one, 1 the automaton, 2 none), the REAL atom hits and
-   the REAL verified piece matches (events) in the order the scan produced them *)
+   the REAL verified piece matches (events) in the order the scan produced them;
+   fwd_only: the regexp pieces run by the FastVM all of whose atoms have no backward
+   code (the atom is where the piece starts, the forward code matches the whole piece
+   and every match length is enumerated) *)
 | ChainCase (p : pat) (pieces : list cpiece) (atoms : list atom) (kernel : nat) (hits : list hit)
-            (events : list event) (d : bytes) (reported : list triple).
+            (events : list event) (fwd_only : list nat) (d : bytes) (reported : list triple).
 
 (* ---- stream (d) ------------------------------------------------------- *)
 Definition flags_eqb (a b : spflags) : bool :=
@@ -447,9 +450,27 @@ Definition regexp_events_ok (p : pat) (pieces : list cpiece) (evs : list event) 
         end) (seq 0 (length pieces))
   end.
 
-(* 1 shape, 2 atoms_ok, 4 hits, 8 literal events, 16 regexp events, 32 bookkeeping, 64 event order *)
+(* the abstract piece matcher of ChainRun (one end per start: the shortest for a lazy
+   pattern, the longest for a greedy one) against the events of the regexp pieces whose
+   atoms have no backward code *)
+Definition one_end_ok (p : pat) (pieces : list cpiece) (evs : list event) (fwd_only : list nat) (d : bytes) : bool :=
+  match chain_of_pat p with
+  | None => true
+  | Some (nc, _, _, c) =>
+      forallb (fun ev => let '(id, s, e) := ev in
+                 negb (existsb (Nat.eqb id) fwd_only) ||
+                 match nth_error pieces id, piece_re c pieces id with
+                 | Some pc, Some r =>
+                     f_fwl (cp_flags pc) || f_fwr (cp_flags pc) ||
+                     match chosen_end nc (cp_greedy pc) r d s with Some e' => Nat.eqb e' e | None => false end
+                 | _, _ => false
+                 end) evs
+  end.
+
+(* 1 shape, 2 atoms_ok, 4 hits, 8 literal events, 16 regexp events, 32 bookkeeping, 64 event order,
+   128 the end of a forward-only FastVM piece is not the one the abstract piece matcher picks *)
 Definition chain_check_bits (p : pat) (pieces : list cpiece) (atoms : list atom) (kernel : nat) (hits : list hit)
-                            (evs : list event) (d : bytes) (rep : list triple) : N :=
+                            (evs : list event) (fwd_only : list nat) (d : bytes) (rep : list triple) : N :=
   (if chain_shape_ok p pieces then 0 else 1) +
   (if chain_atoms_ok pieces atoms then 0 else 2) +
   (if hits_ok kernel atoms d hits then 0 else 4) +
@@ -457,11 +478,12 @@ Definition chain_check_bits (p : pat) (pieces : list cpiece) (atoms : list atom)
                          (hit_events pieces atoms hits d) then 0 else 8) +
   (if regexp_events_ok p pieces evs d then 0 else 16) +
   (if list_eqb triple_eqb rep (map nat_triple (run_chain pieces evs)) then 0 else 32) +
-  (if events_ordered_b evs then 0 else 64).
+  (if events_ordered_b evs then 0 else 64) +
+  (if one_end_ok p pieces evs fwd_only d then 0 else 128).
 
 Definition chain_check (p : pat) (pieces : list cpiece) (atoms : list atom) (kernel : nat) (hits : list hit)
-                       (evs : list event) (d : bytes) (rep : list triple) : bool :=
-  chain_check_bits p pieces atoms kernel hits evs d rep =? 0.
+                       (evs : list event) (fwd_only : list nat) (d : bytes) (rep : list triple) : bool :=
+  chain_check_bits p pieces atoms kernel hits evs fwd_only d rep =? 0.
 
 Fixpoint run_list (l : match_list) (adds : list (N * N * option N * bool)) : match_list * list bool :=
   match adds with
@@ -487,7 +509,7 @@ Definition check_case (c : case) : bool :=
       list_eqb dump_eqb (model_dump p3 npids) dump
   | MLPanicCase _ => false
   | PipeCase p sps atoms _ k hits d rep => pipe_check p sps atoms k hits d rep
-  | ChainCase p pieces atoms k hits evs d rep => chain_check p pieces atoms k hits evs d rep
+  | ChainCase p pieces atoms k hits evs fo d rep => chain_check p pieces atoms k hits evs fo d rep
   | ScanCase p d mm panicked rep =>
       negb panicked &&
       (if limit_reached mm rep then
@@ -515,7 +537,7 @@ Definition spec_case (c : case) : bool :=
   | PipeCase p _ _ anchored _ _ d rep =>
       if anchored then sound_b p d (ref_scan p d) rep && ascending_b (map t_start rep)
       else scan_spec p d None rep
-  | ChainCase p _ _ _ _ _ d rep => scan_spec p d None rep
+  | ChainCase p _ _ _ _ _ _ d rep => scan_spec p d None rep
   end.
 
 (* the reading of a WIDE regexp the chain bookkeeping implements (known finding
@@ -546,7 +568,7 @@ Definition diagnose (c : case) : N :=
       (if ascending_b (map t_start rep) then 0 else 4) +
       (if limit_reached mm rep || complete_b p d rs rep then 0 else 8) +
       (if count_ok mm rep then 0 else 16) +
-      (if sound_b p d rs rep then 0 else if wide_byte_gap_explains p d rep then 131072 else 0)
+      (if sound_b p d rs rep then 0 else if wide_byte_gap_explains p d rep then 262144 else 0)
   | MLPanicCase _ => 33
   (* stream (d): 64 the dumped sub-patterns are not the ones compile_text / the hex model
      expects, 128 atoms_ok is false on the real atoms, 256 the pipeline model run on the
@@ -561,12 +583,12 @@ Definition diagnose (c : case) : N :=
       (if pipe_check p sps atoms k hits d rep then 0 else 256)
   (* stream (e): 64 the dumped pieces are not the ones the split model expects, 128 atoms_ok
      false on the real atoms of a piece, 256 the chain model does not reproduce the reported list *)
-  | ChainCase p pieces atoms k hits evs d rep =>
+  | ChainCase p pieces atoms k hits evs fo d rep =>
       let rs := ref_scan p d in
       (if sound_b p d rs rep then 0 else 2) + (if ascending_b (map t_start rep) then 0 else 4) +
       (if complete_b p d rs rep then 0 else 8) +
-      (if chain_check p pieces atoms k hits evs d rep then 0 else 256) +
-      1024 * chain_check_bits p pieces atoms k hits evs d rep +
-      (if sound_b p d rs rep then 0 else if wide_byte_gap_explains p d rep then 131072 else 0)
+      (if chain_check p pieces atoms k hits evs fo d rep then 0 else 256) +
+      1024 * chain_check_bits p pieces atoms k hits evs fo d rep +
+      (if sound_b p d rs rep then 0 else if wide_byte_gap_explains p d rep then 262144 else 0)
   | _ => 32
   end.
